@@ -96,4 +96,21 @@ def match_semantics(fb, ctx):
                 val = ("Ok", hirq.literal(e["args"][0])) if (hirq.ctor_name(e) or "").endswith("::Ok") else ("Err",)
             etab[(",".join(sorted(vs)), inner)] = val
     want = {("Ok", True): None, ("Ok", False): ("Ok", False), ("Ok", None): ("Err",), ("Err", None): ("Err",)}
-    ctx.check(first_stmt_sets and tail_ok and etab == want, "ALL", "check_match_all: false if some binding fails an expression, otherwise whether any binding matched", "ALL|table", f"flag set in loop: {first_stmt_sets}, returns Ok(flag): {tail_ok}, expression table {etab}", f"{cm['file']}:{cm['line']}")
+    if not (first_stmt_sets and tail_ok and etab == want):
+        # shape-independent reading: the function is interpreted with every loop run zero times / once, and `evaluate` answering
+        # each of its four kinds of result (helpers such as an extracted `expressions_hold` are inlined; their returns stay theirs)
+        import absint
+        outcome = {}
+        try:
+            pids = {i_: absint.sym(f"p{n_}") for n_ in range(8) for i_ in hirq.param_ids(ch, n_)}
+            for name_, val_, loops_ in (("no binding", None, "zero"), ("true", absint.C("Ok", absint.C("Bool", True)), "once"), ("false", absint.C("Ok", absint.C("Bool", False)), "once"),
+                                        ("other", absint.C("Ok", absint.C("Integer", absint.sym("n"))), "once"), ("error", absint.C("Err", absint.sym("e")), "once")):
+                it_ = absint.Interp(hooks={"evaluate": lambda interp, recv, args, v_=val_: v_}, loops=loops_)
+                r_ = it_.run(ch["body"], dict(pids))
+                outcome[name_] = (absint.tag(r_), (r_[2][0] if r_[2] and isinstance(r_[2][0], bool) else None)) if absint.tag(r_) in ("Ok", "Err") else absint.show(r_)
+        except absint.Unknown as e_:
+            outcome = {"not evaluated": str(e_)}
+        want_ = {"no binding": ("Ok", False), "true": ("Ok", True), "false": ("Ok", False), "other": ("Err", None), "error": ("Err", None)}
+        ctx.check(outcome == want_, "ALL", "check_match_all: false if some binding fails an expression, otherwise whether any binding matched", "ALL|table", f"flag set in loop: {first_stmt_sets}, returns Ok(flag): {tail_ok}, expression table {etab}; interpreted outcomes {outcome}, the semantics requires {want_}", f"{cm['file']}:{cm['line']}")
+    else:
+      ctx.check(first_stmt_sets and tail_ok and etab == want, "ALL", "check_match_all: false if some binding fails an expression, otherwise whether any binding matched", "ALL|table", f"flag set in loop: {first_stmt_sets}, returns Ok(flag): {tail_ok}, expression table {etab}", f"{cm['file']}:{cm['line']}")
